@@ -616,14 +616,25 @@ Q(id='C05.read_file_stdin', props=['C05', 'C04'], cls='B', harness='c05_read_fil
 def _longname_shapes(tier):
     # names of NAMECAP-1, NAMECAP and NAMECAP+2 characters against a name buffer of NAMECAP = 4 bytes
     return [dict(name='clu_name%d_cap4' % n, defs=dict(KV_N=2, KV_W=2, KV_BLOCK=2, KV_FMT=1, KV_LONGNAME=n, KV_NAMECAP=4), unwind=18) for n in ((4, 6) if tier == 'quick' else (3, 4, 5, 6))]
-Q(id='C05.read_clu.longnames', props=['C05'], cls='B', harness='c06_readers.c', entry='h_c06_readers', shapes=_longname_shapes,
+Q(id='C05.read_clu.longnames', props=['C05', 'C06', 'C04'], cls='B', harness='c06_readers.c', entry='h_c06_readers', shapes=_longname_shapes,
   mode='wrap', timeout=1200, loops_files=['msa_alloc.shrink.loops', 'msa_io.shrink.loops', 'msa_struct.namecap.loops'], shrink=True, leak_check=True,
   defs=['-DKV_CAP=4', '-DKV_SEQCAP=2'], object_bits=11, unwindset={'strnlen.0': 258},
   funcs=['read_clu', 'null_terminate_sequences', 'resize_msa_seq', 'alloc_msa', 'kalign_free_msa'],
   srcs=['lib/src/msa_alloc.c', 'lib/src/msa_op.c', 'lib/src/msa_misc.c', 'lib/src/alphabet.c', 'lib/src/tlmisc.c'], native_srcs=READER_NATIVE,
   trusted=[TRUST_MSG, 'strstr/strnlen loop stubs', 'realloc byte-copy stub', 'isalpha/ispunct/isspace: CBMC C-locale models',
            'R3 capacity shrink (records 512 -> 4, residues 512 -> 2, name buffer MSA_NAME_LEN 256 -> 4 bytes)'],
-  assumptions=[A_NOFAIL, A_WRAP, 'bounded: Clustal text with row names of 3-6 characters against a 4-byte name buffer; memory safety and leak obligations only (what such a name becomes is not specified by a property)'])
+  assumptions=[A_NOFAIL, A_WRAP, 'bounded: Clustal text with row names of 3-6 characters against a 4-byte name buffer; the name may be cut, the residues and gaps of the row must be those that follow the name'])
+def _longname_msf_shapes(tier):
+    # the skip of a block line is the full row name (KV_NAMELEN = its length in the line), whatever was stored of it
+    return [dict(name='msf_name%d_cap4' % n, defs=dict(KV_N=2, KV_W=2, KV_BLOCK=2, KV_FMT=2, KV_LONGNAME=n, KV_NAMECAP=4, KV_NAMELEN=n, KV_HOSTILE=0), unwind=26) for n in ((6,) if tier == 'quick' else (3, 4, 6))]
+Q(id='C05.read_msf.longnames', props=['C05', 'C06', 'C04'], cls='B', harness='c06_readers.c', entry='h_c06_readers', shapes=_longname_msf_shapes,
+  mode='wrap', timeout=1500, loops_files=['msa_alloc.shrink.loops', 'msa_io.shrink.loops', 'msa_io.msf.loops', 'msa_struct.namecap.loops'], shrink=True, leak_check=True,
+  defs=['-DKV_CAP=4', '-DKV_SEQCAP=2'], object_bits=11, unwindset={'strnlen.0': 258},
+  funcs=['read_msf', 'null_terminate_sequences', 'resize_msa_seq', 'alloc_msa', 'kalign_free_msa'],
+  srcs=['lib/src/msa_alloc.c', 'lib/src/msa_op.c', 'lib/src/msa_misc.c', 'lib/src/alphabet.c', 'lib/src/tlmisc.c'], native_srcs=READER_NATIVE,
+  trusted=[TRUST_MSG, 'strstr/strnlen loop stubs', 'realloc byte-copy stub', 'isalpha/ispunct/isspace: CBMC C-locale models',
+           'R3 capacity shrink (records 512 -> 4, residues 512 -> 2, name buffer MSA_NAME_LEN 256 -> 4 bytes)', 'R3 identity substitution of the block-line skip (contracts/msa_io.msf.loops)'],
+  assumptions=[A_NOFAIL, A_WRAP, 'bounded: MSF text with row names of 3-6 characters against a 4-byte name buffer; the name may be cut, the residues and gaps of the row must be those that follow the name'])
 # =========================================================================== C12 upgma
 def _upgma_shapes(tier):
     s = [(3, 2), (4, 2), (4, 3)] if tier == 'quick' else [(3, 2), (4, 2), (4, 3), (5, 2), (5, 3), (5, 4)]
